@@ -5,6 +5,7 @@ package main
 // and the test is injected with `go test -overlay` (nothing is written into /repo).
 
 import (
+	"regexp"
 	"encoding/json"
 	"fmt"
 	"go/types"
@@ -363,7 +364,17 @@ func tryReplay(P *Program, repo string, o *Obligation, scratch string) (bool, ma
 			sb.WriteString(fmt.Sprintf("\tlet_%s := %s(%s)\n\t_ = let_%s\n", l.Name, l.FnName, strings.Join(letArgs, ", "), l.Name))
 			letArgs = append(letArgs, "let_"+l.Name)
 		}
-		for _, r := range fc.Requires {
+		reqs := fc.Requires
+		if o.Kind == "reject" {
+			// the reject clause replaces the preconditions
+			reqs = nil
+			for _, r := range fc.Rejects {
+				if strings.HasSuffix(o.Name, "#reject."+r.Label) {
+					reqs = append(reqs, r)
+				}
+			}
+		}
+		for _, r := range reqs {
 			if r.FnName == "" {
 				continue
 			}
@@ -406,6 +417,11 @@ func tryReplay(P *Program, repo string, o *Obligation, scratch string) (bool, ma
 				label = fmt.Sprint(i)
 			}
 			if strings.HasSuffix(o.Name, "#post."+label) && e.FnName != "" {
+				if verifierOnly(fc, e) {
+					// the Go versions of these builtins are stubs: evaluating the clause concretely would mean nothing
+					info["clause_oracle"] = "the clause refers to the event trace or other verifier-only state; only a panic can confirm it concretely"
+					continue
+				}
 				expectClause = e.FnName
 				sb.WriteString(fmt.Sprintf("\tfmt.Printf(\"VERIF-REPLAY: CLAUSE %%v\\n\", %s(%s))\n", e.FnName, strings.Join(append(append([]string{}, letArgs...), resNames...), ", ")))
 			}
@@ -456,6 +472,13 @@ func tryReplay(P *Program, repo string, o *Obligation, scratch string) (bool, ma
 		} else {
 			info["status"] = "the real function did not panic on the model's input"
 		}
+	case o.Kind == "reject":
+		if strings.Contains(out, "VERIF-REPLAY: RETURNED") {
+			confirmed = true
+			info["status"] = "confirmed: the real function returns normally on an input it must reject"
+		} else {
+			info["status"] = "the real function did not return normally on the model's input"
+		}
 	case o.Kind == "post" && strings.Contains(o.Desc, "maxAlloc()"):
 		var n int64
 		if i := strings.Index(out, "VERIF-REPLAY: ALLOC "); i >= 0 {
@@ -488,6 +511,21 @@ func tryReplay(P *Program, repo string, o *Obligation, scratch string) (bool, ma
 }
 
 var _ = ssa.NewProgram
+
+var verifierOnlyRe = regexp.MustCompile(`\b(ev[A-Z]\w*|closed|ownsChan|chanCap|iterFresh|onceDone|closure[A-Z]\w*|holds|holdsR|sameMap|sameFunc|fresh|arrayOf)\s*[\[(]`)
+
+// verifierOnly: the clause (or a let it can see) uses a builtin whose Go version is a stub.
+func verifierOnly(fc *FuncContract, c *Clause) bool {
+	if verifierOnlyRe.MatchString(c.Raw) {
+		return true
+	}
+	for _, l := range fc.Lets {
+		if verifierOnlyRe.MatchString(l.Raw) && regexp.MustCompile(`\b` + regexp.QuoteMeta(l.Name) + `\b`).MatchString(c.Raw) {
+			return true
+		}
+	}
+	return false
+}
 
 func hasInvariantLoops(fc *FuncContract) bool {
 	for _, l := range fc.Loops {
